@@ -21,15 +21,81 @@ def run(chk):
     table = W.command_table()
     per = 40 if thorough else 8
     cases = []
+    refused = None
     for idx, cls in table:
         # classes carrying list-like or composite parameters get more assignments (boundary shapes cycle)
         composite = any(W.classify(p.type)[0] not in ("int", "fixbytes") for p in cls.schema)
         for _ in range(per * (3 if composite else 1)):
+            kw = W.gen_assignment(rng, cls)
             try:
-                kw = W.gen_assignment(rng, cls)
                 cmd = cls(**kw)
-            except Exception as e:  # noqa  generator produced something the constructor refuses: count and skip
-                chk.count("generator_refused")
+            except Exception as e:  # noqa  the generator only produces valid values: a refusal is a finding, not a skip
+                chk.count("valid_assignment_refused")
+                if refused is None:
+                    refused = (cls.__qualname__, W.kw_text(cls, kw)[:300], "%s: %s" % (type(e).__name__, str(e)[:120]))
+                    chk.violation("%s refuses the valid assignment %s (%s)" % refused,
+                                  {"class": refused[0], "assignment": W.kw_text(cls, kw), "error": refused[2]},
+                                  key="refuses-valid:%s" % cls.__qualname__)
+                continue
+            cases.append((idx, cls, kw, cmd))
+        # boundary shapes of every list / byte-string parameter: exactly as many entries as the count prefix can announce
+        # (255 behind a 1-byte count), and the longest byte string the type takes
+        for p in cls.schema:
+            c = W.classify(p.type)
+            big = None
+            try:
+                if c[0] == "lvlist" and c[1] == 1:
+                    big = p.type([W.gen_py(rng, W.item_type_of(p.type), True) for _ in range(255)])
+                elif c[0] == "lvbytes" and c[2] <= 65536:
+                    big = p.type(bytes(rng.randrange(256) for _ in range(c[2] - 1)))
+            except Exception as e:  # noqa
+                big = None
+            if big is None and c[0] == "lvlist" and c[1] == 2 and c[2][0] == "int":
+                # 65535 entries behind a 2-byte count: too long for the model's text protocol - checked on the implementation
+                # alone: accepted by the constructor, and the parameter encodes as the count FF FF followed by the items
+                try:
+                    items = [rng.randrange(256 ** c[2][1]) for _ in range(65535)]
+                    kw2 = W.gen_assignment(rng, cls)
+                    kw2[p.name] = p.type(items)
+                    # (no to_frame(): 65535 entries do not fit the 16-bit length field of a link-layer frame - that is the
+                    # frame's limit, not the parameter's; the parameter's own encoding is what is checked)
+                    cmd2 = cls(**kw2)
+                    body2 = bytes(getattr(cmd2, p.name).serialize())
+                    want2 = b"\xff\xff" + b"".join(int(x).to_bytes(c[2][1], "little") for x in items)
+                    chk.count("boundary_full_lvlist_65535")
+                    if want2 != body2 and refused is None:
+                        refused = (cls.__qualname__, "%s with 65535 entries is not encoded as FFFF + items" % p.name, "")
+                        chk.violation("%s: %s" % refused[:2], {"class": refused[0], "parameter": p.name}, key="refuses-valid:%s" % cls.__qualname__)
+                except Exception as e:  # noqa
+                    chk.count("valid_assignment_refused")
+                    if refused is None:
+                        refused = (cls.__qualname__, "%s = a %s with 65535 entries (the most its 2-byte prefix can announce)"
+                                   % (p.name, p.type.__name__), "%s: %s" % (type(e).__name__, str(e)[:120]))
+                        chk.violation("%s refuses a valid assignment: %s (%s)" % refused,
+                                      {"class": refused[0], "parameter": p.name, "entries": 65535, "error": refused[2]},
+                                      key="refuses-valid:%s" % cls.__qualname__)
+            if big is None:
+                continue
+            kw = W.gen_assignment(rng, cls)
+            for q in cls.schema:                       # all optional parameters up to p given
+                if q.name not in kw:
+                    kw[q.name] = W.gen_py(rng, q.type, True)
+                    while q.optional and W.classify(q.type)[0] == "greedy" and len(kw[q.name]) == 0:
+                        kw[q.name] = W.gen_py(rng, q.type)
+                if q is p:
+                    break
+            kw[p.name] = big
+            chk.count("boundary_full_" + c[0])
+            try:
+                cmd = cls(**kw)
+            except Exception as e:  # noqa
+                chk.count("valid_assignment_refused")
+                if refused is None:
+                    refused = (cls.__qualname__, "%s = a %s with %d entries (the most its %d-byte prefix can announce)"
+                               % (p.name, p.type.__name__, len(big), c[1]), "%s: %s" % (type(e).__name__, str(e)[:120]))
+                    chk.violation("%s refuses a valid assignment: %s (%s)" % refused,
+                                  {"class": refused[0], "parameter": p.name, "entries": len(big), "error": refused[2]},
+                                  key="refuses-valid:%s" % cls.__qualname__)
                 continue
             cases.append((idx, cls, kw, cmd))
     lines = ["cmdenc %d %s" % (idx, W.kw_text(cls, kw)) for idx, cls, kw, cmd in cases]
@@ -83,6 +149,8 @@ def run(chk):
                               "equal to the original (==: %s, equal hashes: %s)" % (cls.__qualname__, W.kw_text(cls, kw), eq, hq),
                               {"class": cls.__qualname__, "assignment": W.kw_text(cls, kw), "body": W.hexs(body)},
                               key="%s:equality" % cls.__qualname__)
+    chk.oblige("monitor:every-valid-assignment-is-accepted-by-the-constructor(incl. lists of exactly the largest count)", refused is None,
+               repr(refused) if refused else "")
     chk.oblige("tieB:to_frame-vs-enc_params(%d cases)" % len(cases), enc_bad is None, repr(enc_bad)[:300] if enc_bad else "")
     chk.oblige("monitor:decoded-command-compares-equal-to-the-original", eq_bad is None, repr(eq_bad)[:300] if eq_bad else "")
     chk.oblige("tieB+monitor:from_frame-roundtrip(%d cases)" % len(dec_cases), dec_bad is None, repr(dec_bad)[:300] if dec_bad else "")
